@@ -226,6 +226,12 @@ where
 pub trait GGLWEToGGSWKeyCompressedToMut {
     /// Returns a mutably-borrowed view.
     fn to_mut(&mut self) -> GGLWEToGGSWKeyCompressed<&mut [u8]>;
+
+    /// Returns a mutable reference to the PRNG seeds of the `i`-th key.
+    ///
+    /// The seeds of a view returned by [`Self::to_mut`] are copies: seeds
+    /// derived during encryption have to be stored through this accessor.
+    fn seed_mut(&mut self, i: usize) -> &mut Vec<[u8; 32]>;
 }
 
 impl<D: DataMut> GGLWEToGGSWKeyCompressedToMut for GGLWEToGGSWKeyCompressed<D>
@@ -236,5 +242,9 @@ where
         GGLWEToGGSWKeyCompressed {
             keys: self.keys.iter_mut().map(|c| c.to_mut()).collect(),
         }
+    }
+
+    fn seed_mut(&mut self, i: usize) -> &mut Vec<[u8; 32]> {
+        &mut self.keys[i].seed
     }
 }
